@@ -475,8 +475,17 @@ def run(ctx):
       "and port types in quick, all four multipart types in thorough; more requests, more parts, 0..5 entries per "
       "part and all unrelated message kinds only by simulation and random traces",
       "a request is identified by (xid, stats type); requests outstanding at the same time differ in one of them",
-      "connected state only (stats replies during the handshake are not modelled); MORE flag on desc/aggregate "
-      "and vendor/unknown stats types are not modelled",
+      "replies of NOT multipart-capable types as the second request's reply: vendor statistics (OFPST_VENDOR) and a "
+      "stats type OpenFlow 1.0 does not define (6 / 0x7fff / 0xfffe), in 1..3 parts with the MORE flag, and desc / "
+      "aggregate replies split in 2 parts with MORE, sharing the xid of the splittable reply or not: exhaustive "
+      "transition cover on EX_S3o_<flow|port> (quick; <=3-part splittable reply x 2 generations, together with "
+      "features-reply / OFPT_VENDOR / hello / barrier resp. echo-reply / flow-removed / error / config messages in "
+      "between) and EX_S2or_flow (all 8 raw-listener modes); thorough: EX_S3ow / EX_S2or for all four types.  No "
+      "aggregated event exists for vendor / unknown types (none may fire); the events for the OWN (type, xid) of a "
+      "desc / aggregate reply that is split are left open by the spec (exp.free) - everything else, in particular "
+      "every other request's event, is compared exactly",
+      "connected state only (stats replies during the handshake are not modelled); a vendor statistics body always "
+      "carries its 4-byte vendor id (a shorter one is malformed input - property C10)",
       "OpenFlow bytes built by harness/rawbytes.py (struct only); segmentation of the byte stream varies per step",
   ]
 
